@@ -2,7 +2,8 @@ SPECIFICATION Spec
 CONSTANTS P = 2
           L = 3
           MaxClock = 10
-          MaxPeerKa = 3
+          MaxPeerKa = 2
+          MaxBlocks = 1
 INVARIANT TypeOK
 INVARIANT NoFalseTimeout
 INVARIANT TimeoutDetected
